@@ -53,7 +53,7 @@ class Ev:
     pass
 
 
-def _mk_event_class():
+def _mk_event_class(value_equality=False):
     from basana.core import event
 
     class SimEvent(event.Event):
@@ -61,7 +61,18 @@ def _mk_event_class():
             super().__init__(when)
             self.eid = eid
             self.src = src
-    return SimEvent
+
+    if not value_equality:
+        return SimEvent
+
+    class ValueEvent(SimEvent):
+        # like a dataclass event whose payload happens to repeat: two ticks of one source at one instant compare equal
+        def __eq__(self, other):
+            return isinstance(other, SimEvent) and (self.when, self.src) == (other.when, other.src)
+
+        def __hash__(self):
+            return hash((self.when, self.src))
+    return ValueEvent
 
 
 def t(s):
@@ -113,8 +124,11 @@ def run(tape, prop, tier):
     npre_jobs = tape.draw(9 if prop == "C13" else 4)
     pre_jobs = [(tape.int(-5, horizon + 15), tape.draw(8)) for _ in range(npre_jobs)]
     salt = tape.draw(1000)
+    # timestamps that differ only below the millisecond: each source at its own offset of a few hundred microseconds
+    fine_times = tape.chance(0.2)
+    eq_events = tape.chance(0.15)
 
-    res.sample = dict(sources=src_times, derived=nder, max_concurrent=maxc, handlers_per_source=[len(x) for x in nh],
+    res.sample = dict(sub_millisecond_offsets=fine_times, sources=src_times, derived=nder, max_concurrent=maxc, handlers_per_source=[len(x) for x in nh],
                       front_runners=npre, trailing=npost, behaviours=beh[:4], pre_jobs=pre_jobs)
 
     trace = []
@@ -129,7 +143,7 @@ def run(tape, prop, tier):
     async def main(loop):
         import basana as bs
         from basana.core import event
-        SimEvent = _mk_event_class()
+        SimEvent = _mk_event_class(eq_events)
         d = bs.backtesting_dispatcher(max_concurrent=maxc)
 
         def rec(*a):
@@ -141,7 +155,7 @@ def run(tape, prop, tier):
             evs = []
             for x in ts:
                 st["eid"] += 1
-                ev = SimEvent(t(x), st["eid"], i)
+                ev = SimEvent(t(x) + datetime.timedelta(microseconds=(i * 137) % 1000 if fine_times else 0), st["eid"], i)
                 evs.append(ev)
                 all_events[ev.eid] = ev
             srcs.append(event.FifoQueueEventSource(events=evs))
@@ -321,6 +335,10 @@ def run(tape, prop, tier):
     def V(prop_, clause, msg):
         res.viol(prop_, clause, clause, msg + f" [max_concurrent={maxc}]")
 
+    if fine_times:
+        res.probes["sub_millisecond_offsets"] += 1
+    if eq_events:
+        res.probes["events_with_value_equality"] += 1
     if outcome["r"] != "returned":
         V("C12", "run-did-not-end", f"run() of a finite backtest: {outcome['r']}")
         V("C13", "run-did-not-end", f"run() of a finite backtest: {outcome['r']}")
